@@ -49,8 +49,10 @@ def profile(draw, n_min=2, n_max=5, max_ballots=60):
     if hint:
         rest = [c for c in draw(st.permutations(cands)) if c != winner]
         order = rest + [winner]
+    # auditable ballots beyond the supplied records (the 'informal' count of a .raire header / a card upper bound)
+    extra = draw(st.sampled_from([0, 0, 0, 1, 3, 10, 40]))
     return {"cands": cands, "ballots": ballots, "winner": winner, "order_hint": order,
-            "asn": draw(st.sampled_from(["bp_estimate", "cp_estimate"]))}
+            "asn": draw(st.sampled_from(["bp_estimate", "cp_estimate"])), "tot_extra": extra}
 
 
 def raire_cvrs(prof, contest="c"):
